@@ -41,7 +41,8 @@ func unusualSpecs(rng *rand.Rand, n int) []struct {
 	}
 	dates := []string{"%%CreationDate: 1991-09-13 11:15:12 +0000 UTC", "%%CreationDate: Fri Sep 13 11:15:12 1991",
 		"%%CreationDate: Fri, 13 Sep 1991 11:15:12", "%%CreationDate: Fri Sep 13 1991", "%%CreationDate: yesterday", ""}
-	strs := []string{"()", "(a)", "(two\\nlines)", "(tab\\there)", "(paren \\( open)", "(\\251 1990)", "<00ff>", "(multi\nline literal)"}
+	strs := []string{"()", "(a)", "(two\\nlines)", "(tab\\there)", "(paren \\( open)", "(\\251 1990)", "<00ff>", "(multi\nline literal)",
+		"(1.0\\rbeta 2)", "(a\\r%%CreationDate: 2001-01-01 00:00:00 +0000 UTC)", "(x\\ry\\nz)", "(\\r)"}
 	names := []string{"A", "B.alt", "f_i", "u1F600", "$odd*name!", "@", "~", "a-b+c", "x;y", "zero.sups", "B", "C", "space"}
 	stdPos := map[string]int{"A": 65, "B": 66, "C": 67, "space": 32}
 	for i := 0; i < n; i++ {
@@ -158,10 +159,14 @@ func unusualSpecs(rng *rand.Rand, n int) []struct {
 			"/ItalicAngle " + []string{"0", "-12", "-12.5", "1e1"}[rng.Intn(4)] + " def", "/isFixedPitch " + []string{"true", "false"}[rng.Intn(2)] + " def",
 			"/UnderlinePosition " + []string{"-100", "-100.5"}[rng.Intn(2)] + " def", "/UnderlineThickness 50 def"}
 		f.Private = []string{"/BlueValues [-10 0 700 710] def"}
-		switch rng.Intn(4) {
+		switch rng.Intn(6) {
 		case 0:
 			f.Private = append(f.Private, "/BlueScale .0396251 def") // within 1e-6 of the default: snapped by the writer
 			desc = append(desc, "bluescale-near-default")
+		case 2:
+			// just outside the 1e-6 window: must survive
+			f.Private = append(f.Private, "/BlueScale "+[]string{".039627", ".039621", ".03963", ".03962", ".039623", ".039628"}[rng.Intn(6)]+" def")
+			desc = append(desc, "bluescale-just-outside-window")
 		case 1:
 			f.Private = append(f.Private, "/BlueScale 0.05 def", "/BlueShift 3 def", "/ForceBold true def", "/StdHW [33.3] def")
 		}
